@@ -645,6 +645,19 @@ func (env *Env) evalSlice(e *Expr) (*Val, error) {
 		}
 		return &Val{T: fmt.Sprintf("(mk-slice (s.arr %s) (bvadd (s.off %s) %s) (bvsub %s %s) (bvsub (s.cap %s) %s))", base.T, base.T, lo, hi, lo, base.T, lo), Typ: base.Typ, ConstLen: -1}, nil
 	}
+	if isString(base.Typ) {
+		c := env.enc.ctx
+		hi := "(slen " + base.T + ")"
+		if e.Args[2] != nil {
+			v, err := env.eval(e.Args[2])
+			if err != nil {
+				return nil, err
+			}
+			hi = v.T
+		}
+		c.declSubstr()
+		return &Val{T: fmt.Sprintf("(substr %s %s %s)", base.T, lo, hi), Typ: base.Typ, ConstLen: -1}, nil
+	}
 	return nil, fmt.Errorf("cannot slice %s", base.Typ)
 }
 
